@@ -36,9 +36,9 @@ THEOREMS = {"Artap.Props.C08": [
     "C08_run_smpso_designs_in_box", "C08_run_psoga_designs_in_box",
     "C08_float_clip_in_box", "C08_float_sbx_in_box", "C08_float_run_in_box_nsga2", "C08_float_run_in_box_psoga"]}
 AXIOMS_OK = FLOAT_AXIOMS
-# second tie to the code (tools/py2coq.py + coq/theories/GenProofs): the source of Operator.clip is translated on every run and proved equal to Model/Variation.v clip
+# second tie to the code (tools/py2coq.py + coq/theories/GenProofs): the source of Operator.clip and of VectorAndNumbers.gen_number (uniform / real branch) is translated on every run and proved equal to Model/Variation.v clip / gen_number
 from harness.core import translated_specs
-TRANSLATED = translated_specs("ClipGen")
+TRANSLATED = translated_specs("ClipGen", "GenNumberGen")
 TRUSTED = [
     "Coq 8.16.1 kernel, vm_compute for model evaluation (no native_compute)",
     "FloatAxioms.ltb_spec / eqb_spec and the primitive float operations (standard library) for the float order instance",
